@@ -471,7 +471,10 @@ def sync_model_stream(run, n, label='sync-model'):
         model = C.run_model([c['line'] for c in cases])
         for c, m in zip(cases, model):
             fargs = [x for f_ in c['ftext'] for x in ('--filter', f_)]
-            r = l4.run_cli([c['base'] + '/S/', c['placement'] + c['base'] + '/w/D/'] + M.FLAGS_NO_SKIP + fargs, env=sb.env({'RJRSSYNC_TEST_PROMPT_RESPONSE': ''}), timeout=120, cwd=c['base'])
+            # (what is printed must not decide what is done: the output is turned up or down at random)
+            oflags, oenv = rng.choice([([], {}), ([], {}), (['--quiet'], {}), (['--verbose'], {}), (['--stats'], {}), (['--quiet', '--stats'], {}), ([], {'RUST_LOG': 'error'}), ([], {'RUST_LOG': 'trace'})])
+            fargs = fargs + oflags
+            r = l4.run_cli([c['base'] + '/S/', c['placement'] + c['base'] + '/w/D/'] + M.FLAGS_NO_SKIP + fargs, env=sb.env(dict({'RJRSSYNC_TEST_PROMPT_RESPONSE': ''}, **oenv)), timeout=120, cwd=c['base'])
             snap = fsx.snapshot_world(c['base'] + '/w', 10 ** 30, 10 ** 30 + 1) if r['rc'] == 0 else None
             nt = r['rc'] == 0 and len(c['src']) + len(c['dst']) > 0
             run.case((label, c['line'][:3000]), nt, sample=dict(layer='L4', source_entries=len(c['src']), dest_entries=len(c['dst']), filters=c['ftext'], rc=r['rc'], model=m[:80]) if c['i'] % 15 == 0 else None)
